@@ -487,6 +487,23 @@ class Machine(object):
     if method == "metric_call":
       return D, (D.S[idx[0, 0]], D.S[idx[-1, -1]]), "formed"
     arg = idx.copy() if via == "indices" else D.S[idx]
+    if via == "formed":
+      near = spec.get("near")
+      if near and t >= 3 and len(arg) >= 2:
+        # near ties: the compared distances differ by a tiny positive amount
+        rs = np_stream(spec.get("seed", 0), "near")
+        r_ = len(arg) - 1
+        u = rs.randn(D.d)
+        if t == 3:
+          arg[r_, 2] = arg[r_, 1] + float(near) * u
+        else:
+          arg[r_, 2] = arg[r_, 0]
+          arg[r_, 3] = arg[r_, 1] + float(near) * u
+      lay = spec.get("layout")
+      if lay == "F":
+        arg = np.asfortranarray(arg)
+      elif lay == "T":     # memory order (t, m, d): arg[:, j, :] is contiguous
+        arg = np.ascontiguousarray(arg.transpose(1, 0, 2)).transpose(1, 0, 2)
     if method == "score" and t == 2:
       y = np.where(D.yS[idx[:, 0]] == D.yS[idx[:, 1]], 1, -1)
       if len(set(y.tolist())) < 2:
